@@ -492,6 +492,20 @@ pub fn run(ctx: &Ctx) -> (Stats, Spec) {
         s
     });
     st.merge(crate::report::merge_all(parts));
+    // a full output device: no formula can be stored, so the generator must not report success
+    if std::path::Path::new("/dev/full").exists() {
+        for n in ["1", "4", "6", "30"] {
+            for to_stdout in [false, true] {
+                st.evals += 1;
+                let args: Vec<&str> = if to_stdout { vec!["-n", n] } else { vec!["-n", n, "/dev/full"] };
+                match super::common::fails_on_full_device(ctx, "n_queens_gen", &args, None, to_stdout) {
+                    Some(true) => st.bump("full_device_reported"),
+                    Some(false) => st.violate("c15.run", "C15:success-although-nothing-could-be-written".into(), format!("n_queens_gen -n {} with the output on a full device ({}) exits 0 although no formula could be stored", n, if to_stdout { "stdout" } else { "OUTPUT = /dev/full" }), json!({"kind": "full-device", "n": n})),
+                    None => st.bump("watchdog(inconclusive case)"),
+                }
+            }
+        }
+    }
     st.exhaustive.push(format!("exact model-set equality for every board size n = 1..{}", exact_max));
     let spec = Spec {
         rule: "every board size n = 1..10 [quick] / 1..12 [thorough]: the real generator's output (stdout, and a file that already exists with longer content) is parsed by the reference grammar, its variable set must be v_0..v_(n^2-1), and ALL its models (three-valued propagation search) are compared as a set with an independent backtracking enumeration; rsbdd -t -ft cross-check for n <= 6 / 7; larger n incl. 255, 256, 257 (16-bit boundary), 316, 317 (six-digit indices), thorough also 999-1001 (seven digits): variable set, attacking and non-attacking square pairs (all pairs when feasible, else sampled with a bias to shared lines), empty rows/columns, a constructed placement and near-misses; HUGE sizes up to 65535 (the largest value the option accepts; also 32768, 46341 where the square count passes 2^30 / 2^31): the first 6 MiB [quick] / 48 MiB [thorough] of the streamed output are read and every complete clause must be implied by the rules on its own (distinct squares of one line for <= 1, a complete row / column for = 1, indices below n^2). distinct = board size (exact) / board size (probed); every board size is a configuration.".into(),
